@@ -19,9 +19,11 @@ pub fn run(k: &str, c: &Value) -> Value {
         "c07.curve" => {
             let curve = match Curve2::from_points(&p2s(&c["ref"]), 1e-8, true) { Ok(c) => c, Err(_) => return json!({"err_curve": true}) };
             let pts: Vec<Point2> = fxs(&c["fs"]).iter().filter_map(|f| curve.at_fraction(*f).map(|s| s.point())).collect();
-            let disp = iso2(&c["disp"]);
+            // "pre": a further rigid motion of the scanned points, undone in the guess: the guess stays as close to the answer
+            let pre = if c["pre"].is_null() { Iso2::identity() } else { iso2(&c["pre"]) };
+            let disp = pre * iso2(&c["disp"]);
             let displaced: Vec<Point2> = pts.iter().map(|p| disp * p).collect();
-            let init = iso2(&c["init"]);
+            let init = iso2(&c["init"]) * pre.inverse();
             let eval = |t: &Iso2| -> Vec<Value> { displaced.iter().map(|p| { let m = t * p; let s = curve.at_closest_to_point(&m);
                 let sp = s.surface_point(); json!({"moved": hp2(&m), "closest": hp2(&sp.point), "normal": hv2(&sp.normal.into_inner()), "proj": hx(sp.scalar_projection(&m)),
                 "dist": hx(curve.dist_to_point(&m)), "fraction": hx(s.fraction()), "index": s.index()}) }).collect() };
@@ -39,9 +41,10 @@ pub fn run(k: &str, c: &Value) -> Value {
             let mesh = Mesh::new(verts.clone(), faces.clone(), false);
             let pts: Vec<Point3> = c["samples"].as_array().unwrap().iter().map(|q| { let f = faces[us(&q[0])];
                 Point3::from(verts[f[0] as usize].coords * fx(&q[1]) + verts[f[1] as usize].coords * fx(&q[2]) + verts[f[2] as usize].coords * fx(&q[3])) }).collect();
-            let disp = iso3(&c["disp"]);
+            let pre = if c["pre"].is_null() { Iso3::identity() } else { iso3(&c["pre"]) };
+            let disp = pre * iso3(&c["disp"]);
             let displaced: Vec<Point3> = pts.iter().map(|p| disp * p).collect();
-            let init = iso3(&c["init"]);
+            let init = iso3(&c["init"]) * pre.inverse();
             let to_point = c["mode"].as_str().unwrap() == "point";
             let eval = |t: &Iso3| -> Vec<Value> { displaced.iter().map(|p| { let m = t * p; let sp = mesh.surf_closest_to(&m);
                 json!({"moved": hp3(&m), "closest": hp3(&sp.point), "normal": hv3(&sp.normal.into_inner()), "proj": hx(sp.scalar_projection(&m)), "dist": hx((m - sp.point).norm())}) }).collect() };
